@@ -119,7 +119,7 @@ def choice(ctx, R):
             ltr = [l for l in log if l[0] == "ltr"]
             ms = new_eval(P).resolve_global("scale", "d3_time_scaleMilliseconds")
             ok = isinstance(r, Seq) and len(r.items) == 2 and key(r.items[1]) == "LSTEP" and ltr and ltr[0][1] == ["[E0, E1]", "COUNT"]
-            ok = ok and isinstance(r.items[0], Opaque) and r.items[0].cls is not None and r.items[0].cls.qual == "scale.d3TimeScaleMilliseconds"
+            ok = ok and isinstance(r.items[0], Opaque) and r.items[0].cls is not None and r.items[0].cls is P.cls("scale.d3TimeScaleMilliseconds")
             R.check(ok, "C16.CHOICE", "below the table", where(f), "below one second: the millisecond interval with the linear 1-2-5 step", "below the table tickMethod returns %s (linear range of %s)" % (show(r), ltr[0][1] if ltr else None))
         else:
             st2 = ev.new_state(module="scale")
@@ -174,7 +174,7 @@ def subms(ctx, R):
         return None
 
     for order in ("lt", "gt"):
-        ev = new_eval(P, on_call=hook, inline_filter=lambda fn: fn.qual not in ("scale.dt2milli", "scale.milli2dt"))
+        ev = new_eval(P, on_call=hook, opaque=["scale.dt2milli", "scale.milli2dt"])
         ev.assume_order(Opaque("D0"), Opaque("D1"), order)
         st = ev.new_state(f)
         s = Opaque("self", cls=P.cls(TS), kind="obj")
@@ -193,7 +193,7 @@ def subms(ctx, R):
     R.check(ok, "C16.ARGSHAPE", "ticks -> tickMethod", where(f), "tickMethod(extent in ms, count)", "ticks(m) calls tickMethod with %s: expected (ascending extent in ms, m)" % (tlog[0] if tlog else None))
     # default count
     tlog.clear()
-    ev = new_eval(P, on_call=hook, inline_filter=lambda fn: fn.qual not in ("scale.dt2milli", "scale.milli2dt"))
+    ev = new_eval(P, on_call=hook, opaque=["scale.dt2milli", "scale.milli2dt"])
     ev.assume_order(Opaque("D0"), Opaque("D1"), "lt")
     st = ev.new_state(f)
     s = Opaque("self", cls=P.cls(TS), kind="obj")
@@ -339,7 +339,7 @@ def rangeint(ctx, R):
     # the millisecond interval's range: aligned start, exclusive stop, same integer step
     f = P.func("scale.d3TimeScaleMilliseconds.range")
     R.saw(f)
-    ev = new_eval(P, inline_filter=lambda fn: fn.qual not in ("scale.dt2milli", "scale.milli2dt"))
+    ev = new_eval(P, opaque=["scale.dt2milli", "scale.milli2dt"])
     st = ev.new_state(f)
     s = Opaque("self", kind="obj")
     r = ev.call_closure(Closure(f, None, selfv=s), [Opaque("A"), Opaque("B"), Num.atom("S")], {}, st)
